@@ -192,7 +192,7 @@ func mkMsg(path string) (*mux.Message, string, bool) {
 }
 
 func TestRun(t *testing.T) {
-	rec := vr.New("C17", "route sets of 1..8 patterns from a grammar (literal pieces incl. regex metacharacters . + * ? ( ) [ ] | ^ $ \\, {v}, {v:[0-9]+}, {v:[a-z]*}, {v:.*}, {v:a|bc}, {v:(?:x|y)+}, ...; overlapping and equal-length patterns, empty pattern), paths derived from the patterns (instances, truncated, extended, mutated) or PRNG; exhaustive part: all sets of <=2 patterns over a small pattern alphabet x all paths of <=3 segments over 4 symbols; concurrency part: Handle/HandleRemove/DefaultHandle/ServeCOAP from 8 goroutines under -race. Distinct = distinct (pattern set, path) pairs (hashed).")
+	rec := vr.New("C17", "route sets of 1..8 patterns from a grammar (literal pieces incl. regex metacharacters . + * ? ( ) [ ] | ^ $ \\, {v}, {v:[0-9]+}, {v:[a-z]*}, {v:.*}, {v:a|bc}, {v:(?:x|y)+}, ...; overlapping and equal-length patterns, empty pattern), paths derived from the patterns (instances, truncated, extended, mutated) or PRNG; exhaustive part: all sets of <=2 patterns over a small pattern alphabet x all paths of <=3 segments over 4 symbols; concurrency part: Handle/HandleRemove/DefaultHandle/ServeCOAP from 8 goroutines under -race; registration histories (register, re-register = replace, remove, replace default) with dispatches after every step against a pattern->latest-handler map. Distinct = distinct (pattern set, path) pairs (hashed).")
 	defer rec.Flush(true)
 	seed := vr.Seed()
 
@@ -405,6 +405,7 @@ func TestRun(t *testing.T) {
 
 	// ---- concurrency: mutation concurrent with dispatch
 	concurrent(rec, seed)
+	histories(rec, vr.Scale(3000, 100000), seed)
 	rec.Assume("reference matcher: literals verbatim, {v} = one or more non-slash bytes, {v:re} = ^(?:re)$ for that variable alone; ties between equal-length patterns accept either")
 }
 
